@@ -85,6 +85,25 @@ def _strip_post(e):
             return e, post
 
 
+def _functional_targets(proj, m, fn, call):
+    """to_* functionals a call may reach: direct, or through a local alias `hf = A if c else B` / `hf = A`."""
+    r = resolve_callee(proj, m, call)
+    if r.kind == 'func' and r.node.name.startswith('to_'):
+        return [r.node]
+    out = []
+    if isinstance(call.func, ast.Name):
+        asg = [s for s in ast.walk(fn) if isinstance(s, ast.Assign) and len(s.targets) == 1 and isinstance(s.targets[0], ast.Name)
+               and s.targets[0].id == call.func.id]
+        for s in asg:
+            cands = [s.value.body, s.value.orelse] if isinstance(s.value, ast.IfExp) else [s.value]
+            for c in cands:
+                if isinstance(c, (ast.Name, ast.Attribute)):
+                    rr = proj.resolve_expr(m, c)
+                    if rr.kind == 'func' and rr.node.name.startswith('to_'):
+                        out.append(rr.node)
+    return out
+
+
 def w1(proj, rep):
     rep.rule('W1', RULES['W1'])
     narms = 0
@@ -98,9 +117,8 @@ def w1(proj, rep):
         calls = []
         for n in ast.walk(fwd.node):
             if isinstance(n, ast.Call):
-                r = resolve_callee(proj, m, n)
-                if r.kind == 'func' and r.node.name.startswith('to_'):
-                    calls.append((n, r.node))
+                for fi2 in _functional_targets(proj, m, fwd.node, n):
+                    calls.append((n, fi2))
         if not calls:
             rep.violation('W1', ci.qual, 'forward() calls no to_* functional: the module does not return the functional map', m, fwd.node,
                           text=f'{ci.qual}.forward delegates')
